@@ -114,9 +114,35 @@ func (e *Exec) readN(st *State, ref *Term, want *Term, eofKind int) (src *Term, 
 
 type wrState struct{ data, n, limit, errT, errR *Term }
 
-func (e *Exec) wr(st *State, ref *Term) wrState {
-	w := wrState{e.ghGet(st, "wr.data", byteArr, ref), e.ghGet(st, "wr.len", BV(64), ref), e.ghGet(st, "wr.limit", BV(64), ref),
-		e.ghGet(st, "wr.err.tid", SInt, ref), e.ghGet(st, "wr.err.ref", SInt, ref)}
+func (e *Exec) wr(st *State, ref *Term) wrState { return e.wrF(st, "wr", ref) }
+
+// wrFamily: objects of a type declared `//@ ghost-writer T` keep their ghost byte stream in a family of their own
+// (keyed by the object), apart from the streams of transport writers: the two can never be the same stream.
+func (e *Exec) wrFamily(v Value) string {
+	var t types.Type
+	switch x := v.(type) {
+	case *IfaceV:
+		if x.Tid.Op == "intconst" && x.Tid.Val != 0 {
+			t = e.tidTypes[int(x.Tid.Val)-1]
+		}
+	case *PtrV:
+		if x.Kind == PObj && len(x.Path) == 0 {
+			t = types.NewPointer(x.Root)
+		}
+	}
+	if pt, ok := t.(*types.Pointer); ok && e.specs != nil {
+		for _, g := range e.specs.ghostWriters {
+			if typeKey(pt.Elem()) == g {
+				return "gw:" + g
+			}
+		}
+	}
+	return "wr"
+}
+
+func (e *Exec) wrF(st *State, fam string, ref *Term) wrState {
+	w := wrState{e.ghGet(st, fam+".data", byteArr, ref), e.ghGet(st, fam+".len", BV(64), ref), e.ghGet(st, fam+".limit", BV(64), ref),
+		e.ghGet(st, fam+".err.tid", SInt, ref), e.ghGet(st, fam+".err.ref", SInt, ref)}
 	st.AssumeFact(BVUle(w.n, BVConst(maxLen, 64)))
 	st.AssumeFact(Not(Eq(w.errT, IntConst(0))))
 	return w
@@ -366,11 +392,11 @@ func (e *Exec) ghostPrimitive(st *State, fr *Frame, fn *ssa.Function, args []Val
 		r := e.rd(s, streamRef(args[0]))
 		return one(st, &IfaceV{Tid: r.errT, Ref: r.errR}), true
 	case "ghost_wr_len":
-		return one(st, e.wr(s, streamRef(args[0])).n), true
+		return one(st, e.wrF(s, e.wrFamily(args[0]), streamRef(args[0])).n), true
 	case "ghost_wr_limit":
 		return one(st, e.wr(s, streamRef(args[0])).limit), true
 	case "ghost_wr_at":
-		return one(st, Select(e.wr(s, streamRef(args[0])).data, idx(args[1]))), true
+		return one(st, Select(e.wrF(s, e.wrFamily(args[0]), streamRef(args[0])).data, idx(args[1]))), true
 	case "ghost_wr_err":
 		w := e.wr(s, streamRef(args[0]))
 		return one(st, &IfaceV{Tid: w.errT, Ref: w.errR}), true
